@@ -15,58 +15,58 @@ PROPS = {
     "C01": {
         "harness": [{"name": "c01"}],
         "n_quick": 240, "n_thorough": 6000,
-        "known_for": ["C01", "C15", "C14", "C03", "C05"],
+        "known_for": ["C01", "C04", "C15", "C14", "C03", "C05"],
         "scope_guards": ["C01_transparency composition theorem not yet proved for any fragment of the language; proved for every input: plan_sub (no field invented); refuted: 5 witnesses"],
         "assumptions": ["downstream services are spec-conformant executors over their own schema (simulators, checked against Gql/RefExec.v per request)",
                         "gqlparser's validation of client queries is taken as given (only validated operations are emitted)"],
     },
     "C04": {
-        "harness": [{"name": "c01"}],
+        "harness": [{"name": "c04"}],
         "n_quick": 240, "n_thorough": 6000,
-        "known_for": ["C01", "C15", "C14", "C03", "C05"],
+        "known_for": ["C01", "C04", "C15", "C14", "C03", "C05"],
         "assumptions": ["validity of a received document is judged by gqlparser's validator at the simulator (direct oracle) and by valid_doc in the model"],
     },
     "C02": {
         "harness": [{"name": "c02"}],
-        "n_quick": 240, "n_thorough": 6000, "known_for": ["C01", "C15", "C14", "C03", "C05"],
+        "n_quick": 240, "n_thorough": 6000, "known_for": ["C01", "C04", "C15", "C14", "C03", "C05"],
         "assumptions": ["downstream services are spec-conformant executors over their own schema (simulators, checked against Gql/RefExec.v per request)",
                         "gqlparser's validation of client queries is taken as given (only validated operations are emitted)"],
         "partial": "panic recovery at the HTTP layer is gqlgen's; real timeouts are simulated by a transport returning a net.Error with Timeout()=true",
     },
     "C03": {
         "harness": [{"name": "c03"}],
-        "n_quick": 240, "n_thorough": 6000, "known_for": ["C01", "C15", "C14", "C03", "C05"],
+        "n_quick": 240, "n_thorough": 6000, "known_for": ["C01", "C04", "C15", "C14", "C03", "C05"],
         "assumptions": ["downstream services are spec-conformant executors over their own schema (simulators, checked against Gql/RefExec.v per request)",
                         "gqlparser's validation of client queries is taken as given (only validated operations are emitted)"],
     },
     "C05": {
         "harness": [{"name": "c05"}],
-        "n_quick": 240, "n_thorough": 6000, "known_for": ["C01", "C15", "C14", "C03", "C05"],
+        "n_quick": 240, "n_thorough": 6000, "known_for": ["C01", "C04", "C15", "C14", "C03", "C05"],
         "assumptions": ["downstream services are spec-conformant executors over their own schema (simulators, checked against Gql/RefExec.v per request)",
                         "gqlparser's validation of client queries is taken as given (only validated operations are emitted)"],
     },
     "C15": {
         "harness": [{"name": "c15"}],
-        "n_quick": 240, "n_thorough": 6000, "known_for": ["C01", "C15", "C14", "C03", "C05"],
+        "n_quick": 240, "n_thorough": 6000, "known_for": ["C01", "C04", "C15", "C14", "C03", "C05"],
         "assumptions": ["downstream services are spec-conformant executors over their own schema (simulators, checked against Gql/RefExec.v per request)",
                         "gqlparser's validation of client queries is taken as given (only validated operations are emitted)"],
     },
     "C16": {
         "harness": [{"name": "c16"}],
-        "n_quick": 240, "n_thorough": 6000, "known_for": ["C01", "C15", "C14", "C03", "C05"],
+        "n_quick": 240, "n_thorough": 6000, "known_for": ["C01", "C04", "C15", "C14", "C03", "C05"],
         "assumptions": ["downstream services are spec-conformant executors over their own schema (simulators, checked against Gql/RefExec.v per request)",
                         "gqlparser's validation of client queries is taken as given (only validated operations are emitted)"] + ["the simulators count a mutation's side effects when (and only when) the request is executed"],
     },
     "C06": {
         "harness": [{"name": "c06"}],
-        "n_quick": 70, "n_thorough": 1500, "known_for": ["C01", "C15", "C14", "C03", "C05"],
+        "n_quick": 70, "n_thorough": 1500, "known_for": ["C01", "C04", "C15", "C14", "C03", "C05"],
         "assumptions": ["downstream services are spec-conformant executors over their own schema (simulators, checked against Gql/RefExec.v per request)",
                         "gqlparser's validation of client queries is taken as given (only validated operations are emitted)"] + ["the Go scheduler between 'response read' and 'result sent' is not controlled by the harness; the transition system covers those interleavings"],
         "partial": "only response-completion order is forced (gating transport with a settle window); the merge-commutation lemma (any causally ordered list merges to the same tree) is not yet a theorem",
     },
     "C13": {
         "harness": [{"name": "c13"}],
-        "n_quick": 150, "n_thorough": 3000, "known_for": ["C01", "C15", "C14", "C03", "C05"],
+        "n_quick": 150, "n_thorough": 3000, "known_for": ["C01", "C04", "C15", "C14", "C03", "C05"],
         "assumptions": ["downstream services are spec-conformant executors over their own schema (simulators, checked against Gql/RefExec.v per request)",
                         "gqlparser's validation of client queries is taken as given (only validated operations are emitted)"] + ["goroutines are identified by a github.com/movio/bramble frame on their stack; net/http connection and body lifetimes are not observed"],
         "partial": "client cancellation is exercised by the harness only (the transition system has no cancel label); termination and deadlock freedom are theorems about the transition system, whose tie to execution.go is the acceptance of observed schedules and the goroutine census",
@@ -92,7 +92,7 @@ PROPS = {
     },
     "C14": {
         "harness": [{"name": "c14"}],
-        "n_quick": 240, "n_thorough": 6000, "known_for": ["C01", "C15", "C14", "C03", "C05"],
+        "n_quick": 240, "n_thorough": 6000, "known_for": ["C01", "C04", "C15", "C14", "C03", "C05"],
         "assumptions": ["downstream services are spec-conformant executors over their own schema (simulators, checked against Gql/RefExec.v per request)",
                         "gqlparser's validation of client queries is taken as given (only validated operations are emitted)"] + ["strconv.IsPrint is an oracle: bytes >= 0x80 are assumed to belong to printable runes (the harness only uses such runes)"],
     },
@@ -123,7 +123,7 @@ PROPS = {
     },
     "C12": {
         "harness": [{"name": "c12"}],
-        "n_quick": 120, "n_thorough": 3000, "known_for": ["C01", "C15", "C14", "C03", "C05"],
+        "n_quick": 120, "n_thorough": 3000, "known_for": ["C01", "C04", "C15", "C14", "C03", "C05"],
         "race": True,
         "assumptions": ["downstream services are spec-conformant executors over their own schema (simulators, checked against Gql/RefExec.v per request)",
                         "'alone' means: served by a fresh gateway instance over the same schema and data",
